@@ -33,6 +33,9 @@ use super::*;
 use vstd::prelude::*;
 use self::im::HashMap;
 //@include env/im_shim.vs
+/// A-iter: inside this module the path `std::iter::once` resolves to the shim `vonce` (the only
+/// `std::` path of the extracted code)
+pub mod std { pub mod iter { pub use crate::vonce as once; } }
 
 //@item solution/src/transition.rs type CycleIdx : plain
 //@end
@@ -115,6 +118,25 @@ impl Clone for TransitionCycle {
 //@retname r
 //@sig
     ensures r == self.maintenance_counter,
+//@end
+//@item solution/src/transition/transition_cycle.rs TransitionCycle::three_opt
+//@retname r
+//@sig
+    requires
+        i < j < k < self.cycle@.len(),
+        self.cycle@.len() <= max_vehicles(),
+        cycle_tours_ok(network, tours@, self.cycle@),
+        // the old counter is exact
+        self.maintenance_counter == spec_cycle_counter(network, tours@, self.cycle@),
+    ensures
+        r.cycle@ == three_opt_seq(self.cycle@, i as int, j as int, k as int), // @obl C15.three_opt.new_cycle
+        r.maintenance_counter == spec_cycle_counter(network, tours@, r.cycle@), // @obl C15.three_opt.counter
+//@first
+        broadcast use axiom_ext_items_slice;
+//@before "let end_depot_i"
+        proof {
+            lemma_three_opt_exec(network, tours@, self.cycle@, i as int, j as int, k as int);
+        }
 //@end
 
 // ---- Transition --------------------------------------------------------------------------------------
@@ -399,6 +421,140 @@ impl Clone for TransitionCycle {
             let nv = TView { cycles: cycles@, total_violation: total_maintenance_violation as int, total_counter: total_maintenance_counter as int,
                 lookup: cycle_lookup@, empty: empty_cycles@ };
             lemma_remove_vehicle_wf(self@, nv, network, tours, vehicle, nc);
+        }
+//@end
+//@item solution/src/transition/modifications.rs Transition::add_vehicle_at_the_end
+//@retname r
+//@sig
+    requires
+        self.wf(network, eff_tours(updated_tours@, old_tours@)),
+        !self.has_vehicle(vehicle),
+        new_cycle_idx < self.n(),
+        eff_tours(updated_tours@, old_tours@).contains_key(vehicle),
+        tour_ok(network, &eff_tours(updated_tours@, old_tours@)[vehicle]),
+        self.total_len() < max_vehicles(),
+    ensures
+        r.wf_but_empty(network, eff_tours(updated_tours@, old_tours@)), // @obl C15.add_vehicle_at_the_end.wf
+        r.wf_empty(), // @obl C15.add_vehicle_at_the_end.empty_cycles
+        // the vehicle is appended to cycle new_cycle_idx
+        r.cycle_lookup@ == self.cycle_lookup@.insert(vehicle, new_cycle_idx), // @obl C15.add_vehicle_at_the_end.lookup
+        r.n() == self.n(),
+        r.cyc(new_cycle_idx as int) == self.cyc(new_cycle_idx as int).push(vehicle), // @obl C15.add_vehicle_at_the_end.cycle
+        forall|i: int| 0 <= i < self.n() && i != new_cycle_idx ==> #[trigger] r.cyc(i) == self.cyc(i),
+        r.total_len() == self.total_len() + 1,
+//@closure 0
+    -> (q: &Tour) requires old_tours@.contains_key(vehicle) ensures *q == old_tours@[vehicle]
+//@closure-params 1
+    &CycleIdx
+//@closure 1
+    -> (b: bool) ensures b == (*p0 != new_cycle_idx)
+//@closure-params 2
+    &VehicleIdx
+//@closure 2
+    -> (d: NodeIdx)
+    requires eff_tours(updated_tours@, old_tours@).contains_key(*p0), eff_tours(updated_tours@, old_tours@)[*p0].wf(),
+        !eff_tours(updated_tours@, old_tours@)[*p0].is_dummy,
+    ensures d == sp_end_depot(&eff_tours(updated_tours@, old_tours@)[*p0])
+//@closure 3
+    -> (q: &Tour) requires old_tours@.contains_key(v) ensures *q == old_tours@[v]
+//@closure-params 4
+    &VehicleIdx
+//@closure 4
+    -> (d: NodeIdx)
+    requires eff_tours(updated_tours@, old_tours@).contains_key(*p0), eff_tours(updated_tours@, old_tours@)[*p0].wf(),
+        !eff_tours(updated_tours@, old_tours@)[*p0].is_dummy,
+    ensures d == sp_start_depot(&eff_tours(updated_tours@, old_tours@)[*p0])
+//@closure 5
+    -> (q: &Tour) requires old_tours@.contains_key(v) ensures *q == old_tours@[v]
+//@before "let old_cycle"
+        proof {
+            assert(cycles@ =~= self.cycles@) by {
+                assert forall|i: int| 0 <= i < self.cycles@.len() implies #[trigger] cycles@[i] == self.cycles@[i] by {
+                    assert(vstd::pervasive::cloned(self.cycles@[i], cycles@[i]));
+                }
+            }
+        }
+//@before "let new_maintenance_counter"
+        proof {
+            let tours = eff_tours(updated_tours@, old_tours@);
+            let k = new_cycle_idx as int;
+            let c = self.cyc(k);
+            let n = c.len() as int;
+            self@.lemma_bounds(network, tours);
+            assert(old_cycle.maintenance_counter == self@.cycles[k].maintenance_counter);
+            assert(new_cycle_vec@ =~= c.push(vehicle));
+            assert(*tour_of_vehicle == tours[vehicle]);
+            lemma_tour_ok_depots(network, tour_of_vehicle);
+            lemma_dist_bound(network, sp_end_depot(tour_of_vehicle), sp_start_depot(tour_of_vehicle));
+            if n >= 1 {
+                let pr = self.cyc(k)[n - 1];
+                let su = self.cyc(k)[0];
+                lemma_tour_ok_depots(network, &tours[pr]);
+                lemma_tour_ok_depots(network, &tours[su]);
+                lemma_dist_bound(network, sp_end_depot(&tours[pr]), sp_start_depot(&tours[su]));
+                lemma_counter_push(network, tours, c, vehicle);
+            } else {
+                assert(c.push(vehicle) =~= seq![vehicle]);
+                lemma_counter_single(network, tours, vehicle);
+            }
+        }
+//@after "empty_cycles.retain"
+            proof {
+                // the local list no longer contains new_cycle_idx (what the result *should* carry)
+                let e = self.empty_cycles@;
+                assert(exists|m: Seq<bool>| #![trigger mask_filter(e, m)] m.len() == e.len() && empty_cycles@ == mask_filter(e, m)
+                    && forall|i: int| 0 <= i < e.len() ==> #[trigger] m[i] == (e[i] != new_cycle_idx));
+                let m = choose|m: Seq<bool>| #![trigger mask_filter(e, m)] m.len() == e.len() && empty_cycles@ == mask_filter(e, m)
+                    && forall|i: int| 0 <= i < e.len() ==> #[trigger] m[i] == (e[i] != new_cycle_idx);
+                lemma_mask_filter_ne(e, m, new_cycle_idx);
+            }
+//@after "let new_cycle ="
+        let ghost nc = new_cycle;
+//@before "Transition {"
+        proof {
+            let tours = eff_tours(updated_tours@, old_tours@);
+            let k = new_cycle_idx as int;
+            assert(cycles@ =~= self.cycles@.update(k, nc));
+            // (a) the transition as the code builds it: empty_cycles taken from self again
+            let nv = TView { cycles: cycles@, total_violation: total_maintenance_violation as int, total_counter: total_maintenance_counter as int,
+                lookup: cycle_lookup@, empty: self.empty_cycles@ };
+            lemma_add_at_end_wf(self@, nv, network, tours, vehicle, new_cycle_idx, nc);
+            // (b) the transition with the locally edited list: this one is consistent
+            let nv2 = TView { cycles: cycles@, total_violation: total_maintenance_violation as int, total_counter: total_maintenance_counter as int,
+                lookup: cycle_lookup@, empty: empty_cycles@ };
+            lemma_add_at_end_wf(self@, nv2, network, tours, vehicle, new_cycle_idx, nc);
+            assert(nv2.wf_empty()) by {
+                if self.cyc(k).len() > 0 { assert(!self.empty_cycles@.contains(new_cycle_idx)); }
+            }
+        }
+//@end
+//@item solution/src/transition/modifications.rs Transition::move_vehicle
+//@retname r
+//@sig
+    requires
+        self.wf(network, tours@),
+        self.has_vehicle(vehicle),
+        new_cycle_idx < self.n(),
+    ensures
+        r.wf_but_empty(network, tours@), // @obl C15.move_vehicle.wf
+        r.wf_empty(), // @obl C15.move_vehicle.empty_cycles
+        // remove, then add at the end of cycle new_cycle_idx
+        r.cycle_lookup@ == self.cycle_lookup@.remove(vehicle).insert(vehicle, new_cycle_idx), // @obl C15.move_vehicle.lookup
+        r.n() == self.n(),
+        ({
+            let k0 = self.cycle_of(vehicle);
+            let c0 = self.cyc(k0).remove(self.cyc(k0).index_of(vehicle));
+            &&& r.cyc(new_cycle_idx as int) == (if new_cycle_idx == k0 { c0 } else { self.cyc(new_cycle_idx as int) }).push(vehicle)
+            &&& (new_cycle_idx != k0 ==> r.cyc(k0) == c0)
+            &&& forall|i: int| 0 <= i < self.n() && i != k0 && i != new_cycle_idx ==> #[trigger] r.cyc(i) == self.cyc(i)
+        }), // @obl C15.move_vehicle.cycles
+        r.total_len() == self.total_len(),
+//@first
+        proof {
+            assert(eff_tours(Map::<VehicleIdx, &Tour>::empty(), tours@) =~= tours@);
+            let k0 = self.cycle_of(vehicle);
+            assert(self.cyc(k0).contains(vehicle));
+            assert(self.cyc(k0)[self.cyc(k0).index_of(vehicle)] == vehicle);
         }
 //@end
 
